@@ -432,6 +432,11 @@ def slice_(ip, b, lo, hi, step, st, node=None):
         except Exception:
             pass
     d = '%s[%s:%s]' % (b.desc(), '' if cv(lo) is None else lo.desc(), '' if cv(hi) is None else hi.desc())
+    if isinstance(b, BytesV) and all(isinstance(x, Const) for x in (lo, hi, step)) and step.value is None:
+        bl, bh = bytes_len(b, st)
+        if bl == bh and bl != INF:
+            n = len(range(int(bl))[lo.value:hi.value])
+            return BytesV([('fix', n, d)])
     if isinstance(b, Obj) and st.heap[b.oid].kind == 'list':
         h = st.heap[b.oid]
         if not h.open and all(isinstance(x, Const) for x in (lo, hi, step)):
@@ -506,9 +511,35 @@ def call_prim(ip, fv, args, kwargs, st, line, node):
         target, _, meth = fv.d.rpartition('.')
         if target in st.heap and st.heap[target].kind in ('list', 'dict'):
             return container_call(ip, Obj(target), meth, args, kwargs, st, line)
-        if isinstance(fv, SuperCall):
+        if isinstance(fv, (SuperCall, ConstMethod)):
             return fv.invoke(ip, args, kwargs, st, line)
     return None
+
+
+class ConstMethod(Opaque):
+    """Method of a constant str / bytes receiver (folded when all arguments are constant)."""
+    __slots__ = ('recv', 'attr')
+    SAFE = {'split', 'upper', 'lower', 'strip', 'startswith', 'endswith', 'encode', 'decode', 'join',
+            'replace', 'rstrip', 'lstrip', 'isdigit', 'find', 'count', 'format', 'zfill', 'rjust', 'ljust'}
+
+    def __init__(self, recv, attr):
+        Opaque.__init__(self, '%r.%s' % (recv, attr))
+        self.recv = recv
+        self.attr = attr
+
+    def invoke(self, ip, args, kwargs, st, line):
+        if all(isinstance(a, Const) for a in args) and not kwargs:
+            try:
+                r = getattr(self.recv, self.attr)(*[a.value for a in args])
+            except Exception as ex:
+                return [('raise', Opaque(type(ex).__name__), st)]
+            if isinstance(r, list):
+                o = st.new_obj('list', hint='list')
+                st.heap[o.oid].items = [Const(x) for x in r]
+                return [('val', o, st)]
+            return [('val', Const(r), st)]
+        kind = 'bytes' if self.attr == 'encode' else None
+        return [('val', Opaque('%s(%s)' % (self.d, ', '.join(a.desc() for a in args)), kind), st)]
 
 
 class SuperCall(Opaque):
@@ -658,6 +689,9 @@ def bytes_len(v, st):
                 a, b = bytes_len(p[1], st)
                 lo += a
                 hi += b
+            elif p[0] == 'fix':
+                lo += p[1]
+                hi += p[1]
             else:
                 hi = INF
         return (lo, hi)
@@ -715,8 +749,10 @@ def _unpack_ok(ip, args, st, line, fl):
 
 def _p_struct_pack(ip, args, kwargs, st, line, node):
     if args and isinstance(args[0], Const) and isinstance(args[0].value, str):
-        return [('val', BytesV([('pack', args[0].value, list(args[1:]), line)]), st)]
-    return [('val', BytesV([('packdyn', args[0] if args else None, list(args[1:]), line)]), st)]
+        return [('val', BytesV([('pack', args[0].value, list(args[1:]), line,
+                                 getattr(st.cur_func(), 'qualname', None))]), st)]
+    return [('val', BytesV([('packdyn', args[0] if args else None, list(args[1:]), line,
+                             getattr(st.cur_func(), 'qualname', None))]), st)]
 
 
 def _p_minmax(which):
